@@ -90,6 +90,13 @@ pub fn generate_block(
                     } else {
                         quote! { #address + #index * #stride }
                     };
+                    // A non-root block sits at an offset, so the reported address must include it
+                    // to be the address that was actually used for the read
+                    let address_calc = if *root {
+                        address_calc
+                    } else {
+                        quote! { (self.base_address + #address_calc) as #register_address_type }
+                    };
                     quote! {
                         #cfg_attr
                         let reg = self.#register_name(#index_param).#read_function?;
